@@ -875,7 +875,10 @@ func main() {
 	sqlStream(lib.SubRand(r), w, roots)
 	t1 := time.Now()
 	cancelStream(lib.SubRand(r), w, roots)
-	fmt.Printf("c14: sql stream %.1fs, overlapping-contexts stream %.1fs\n", t1.Sub(t0).Seconds(), time.Since(t1).Seconds())
+	t2 := time.Now()
+	// ---- one issuing CA key under different issuance chains of the same length (crosscert.go)
+	crossStream(lib.SubRand(r), w)
+	fmt.Printf("c14: sql stream %.1fs, overlapping-contexts stream %.1fs, cross-certification stream %.1fs\n", t1.Sub(t0).Seconds(), t2.Sub(t1).Seconds(), time.Since(t2).Seconds())
 	w.Close()
 	fmt.Printf("c14: wrote %d cases\n", w.Len())
 }
